@@ -56,12 +56,12 @@ let () =
               | Served p -> dec_of_n p
               | Rejected -> "-") keys)) (split_on ',' evs) in
       Printf.printf "%s\t%s\n" id (String.concat " " outs)
-    | id :: "E" :: pnum :: missing :: keys :: _ ->
+    | id :: "E" :: pnum :: hostedl :: keys :: _ ->
       let ks = List.map bytes_of_hex (if keys = "" then [] else split_on ',' keys) in
-      let n = n_of_dec pnum and mi = int_of_string missing in
-      let hosted = List.filter (fun p -> p <> mi) (List.init (int_of_n n) (fun i -> i)) in
+      let n = n_of_dec pnum in
+      let hosted = List.map int_of_string (split_on ',' hostedl) in
       let st = ns_hosting n (List.map n_of_int hosted) in
-      let nmiss = List.length (List.filter (fun k -> int_of_n (part_of (route_key k) n) = mi) ks) in
+      let nmiss = List.length (List.filter (fun k -> not (List.mem (int_of_n (part_of (route_key k) n)) hosted)) ks) in
       (* all hosted keys were SET before: EXISTS counts every occurrence *)
       let res = (match ns_route_all st (List.map route_key ks) with
                  | None -> "rejected"
